@@ -240,11 +240,16 @@ def run_lex(case, st=None):
     try:
         again = Literal(norm, datatype=d)
         meth = L.normalize()
+        rawmeth = raw.normalize()
     except Exception as ex:
         return ("lex-raises", "normalising %r^^xsd:%s again raised %s: %s" % (norm, dtname, type(ex).__name__, ex))
     st["idempotent"] = st.get("idempotent", 0) + 1
     if str(again) != norm or str(meth) != norm:
         return ("norm-not-idempotent", "%r^^xsd:%s -> %r -> %r (normalize(): %r)" % (lex, dtname, norm, str(again), str(meth)))
+    if representable and not trig:
+        st["normalize-method-on-raw"] = st.get("normalize-method-on-raw", 0) + 1
+        if str(rawmeth) != norm:
+            return ("normalize-method", "%r^^xsd:%s built with normalize=False: .normalize() gives %r, construction-time normalisation gives %r" % (lex, dtname, str(rawmeth), norm))
     if str(meth.datatype) != str(d) or str(again.datatype) != str(d):
         return ("norm-changes-datatype", "normalising %r^^xsd:%s changed the datatype" % (lex, dtname))
     st["_nontrivial"] = 1 if norm != lex or trig else 0
@@ -304,6 +309,16 @@ def run_eq(case, st=None):
     if got != want:
         return ("eq", "%r^^xsd:%s .eq(%r^^xsd:%s) is %s; the mapped Python values %r and %r compare %s" % (l1, d1, l2, d2, got, p1, p2, want))
     nan = d1 in ("double", "float") and isinstance(r1, float) and math.isnan(r1)
+    # eq() also accepts the Python value itself
+    pv = b.toPython()
+    if isinstance(pv, (int, float, str, dt.date, dt.time, dt.timedelta, Duration)) and not isinstance(pv, (bool, Literal)):
+        try:
+            got2 = a.eq(pv)
+        except TypeError as ex:
+            return ("eq-python-refuses", "%r^^xsd:%s .eq(%r) raised TypeError: %s" % (l1, d1, pv, ex))
+        st["eq-python"] = st.get("eq-python", 0) + 1
+        if got2 is NotImplemented or bool(got2) != want:
+            return ("eq-python", "%r^^xsd:%s .eq(%r) [the Python value of %r^^xsd:%s] is %r, expected %s" % (l1, d1, pv, l2, d2, got2, want))
     if (a == b) and not nan:
         st["term-eq-implies-eq"] = st.get("term-eq-implies-eq", 0) + 1
         if not got:
